@@ -141,18 +141,25 @@ def tlc_walks(ctx, module, cfg, num, depth, seed, timeout=600):
                   workers='1', timeout=timeout)
     if 'Error:' in out:
         raise Infra('generation walk %s/%s failed:\n%s' % (module, cfg, tail_errors(out)))
+    # TLC prints the history of every candidate successor. A walk starts with
+    # a line of length 2 (begin + first call); within a walk the history that
+    # was actually followed is the longest one.
     hist = []
-    prev = None
+    best = None
+    last_len = 0
     for ln in out.splitlines():
         m = _OPS.match(ln)
         if not m:
             continue
         ops = json.loads(unquote_tla(m.group(1)))
-        if prev is not None and not (len(ops) == len(prev) + 1 and ops[:len(prev)] == prev):
-            hist.append(prev)
-        prev = ops
-    if prev is not None:
-        hist.append(prev)
+        if len(ops) <= 2 and last_len > 2:
+            hist.append(best)
+            best = None
+        if best is None or len(ops) >= len(best):
+            best = ops
+        last_len = len(ops)
+    if best is not None:
+        hist.append(best)
     return hist
 
 
